@@ -1,7 +1,7 @@
 """C14 - the client sends only what it should, where it should, and nothing on a dry run."""
 import datetime, io, urllib.request
 from ofxtools import Client, config, utils, models
-from ofxtools.Client import OFXClient, StmtRq, CcStmtRq, InvStmtRq, AUTH_PLACEHOLDER
+from ofxtools.Client import OFXClient, StmtRq, CcStmtRq, InvStmtRq, StmtEndRq, CcStmtEndRq, AUTH_PLACEHOLDER
 from ofxtools.Parser import OFXTree
 from sx import rt
 from harness.envstubs import FakeFS, FakePath, FakeResponse, FakeNet
@@ -96,7 +96,12 @@ def setup(ctx, log, persist_cookies, advertised, configured):
 
 def do_request(ctx, client, kind, dryrun, skip_profile):
     if kind == "statements":
-        return client.request_statements("s3cret", StmtRq(acctid="1", accttype="CHECKING"), dryrun=dryrun, skip_profile=skip_profile)
+        # any of the five request kinds, alone or two together (closing statements are advertised for bank accounts only)
+        rqs = [StmtRq(acctid="1", accttype="CHECKING"), CcStmtRq(acctid="2"), InvStmtRq(acctid="3"), StmtEndRq(acctid="1", accttype="SAVINGS"), CcStmtEndRq(acctid="2")]
+        i = ctx.choice("request_kind", list(range(len(rqs))))
+        j = ctx.choice("second_request_kind", [None] + list(range(len(rqs))))
+        chosen = [rqs[i]] + ([rqs[j]] if j is not None else [])
+        return client.request_statements("s3cret", *chosen, dryrun=dryrun, skip_profile=skip_profile)
     if kind == "accounts":
         return client.request_accounts("s3cret", datetime.datetime(2020, 1, 1, tzinfo=UTC), dryrun=dryrun, skip_profile=skip_profile)
     if kind == "tax":
@@ -210,7 +215,7 @@ def h_jars(ctx):
 HARNESSES = dict(send=h_send, jars=h_jars, two_institutions=h_two_institutions)
 
 META = dict(
-    bounds=dict(requests="statements / account-info / tax / profile, each with symbolic dryrun, skip_profile, persist_cookies, advertised URL equal to or different from the configured one, profile cached or not",
+    bounds=dict(requests="statements (one or two of the five statement request kinds; the profile advertises closing statements for bank accounts only) / account-info / tax / profile, each with symbolic dryrun, skip_profile, persist_cookies, advertised URL equal to or different from the configured one, profile cached or not",
                 profile="4 message sets advertising the service URL",
                 institutions="two clients of two institutions (5 ORG/FID pairs, with and without dots) sharing one cache directory, second server's profile older or newer"),
     models=["instrumented request_statements/request_accounts/request_tax1099/request_profile/_request_profile/_get_service_urls/download/post_request/http_headers/serialize",
